@@ -510,6 +510,7 @@ def finish(ctx, level="proof"):
                      v["replay_text"]))
         tail = " no-failing-input-found" if v["no_input"] else ""
         print("VIOLATION property=%s replay=%s%s" % (ctx.pid, path, tail))
+        print("  what: %s" % " ".join(str(v["what"]).split())[:400])
         nviol += 1
     cov = sanitize_coverage(dict(ctx.coverage))
     ev = dict(property_id=ctx.pid, tier=ctx.tier, seed=ctx.seed, level=level, coverage=cov,
